@@ -165,7 +165,7 @@ def gen_system(rng, size=None):
         rs = [rng.choice(poolm) for _ in range(rng.randint(1, 2))]
         ps = [rng.choice(poolm) for _ in range(rng.randint(1, 2))]
         rtype = 'condensed' if condensed else rng.choice(DET_TYPES)
-        rate = rng.choice(['5', '1e6', '0.25', '3.5e-2', '100', '0', '0.0', '0e0', '12.50'])
+        rate = rng.choice(['5', '1e6', '0.25', '3.5e-2', '100', '0', '0.0', '0e0', '12.50', '2.5e-10', '3.0000000004', '1234567890.5', '7e-12'])
         units = ''.join('/' + rng.choice(PG.CUNITS) for _ in range(len(rs) - 1)) + '/' + rng.choice(PG.TUNITS)
         err = ' +/- %s' % rng.choice(['1', 'inf', '0.5']) if rng.random() < 0.3 else ''
         key = (tuple(sorted(rs)), tuple(sorted(ps)), rtype)
